@@ -888,3 +888,21 @@ Qed.
 
 Lemma command_new_wf p : command_wf (command_new p).
 Proof. intros t Ht. discriminate. Qed.
+
+(* ------------------------------------------------------------------ argv[0] and program lookup *)
+
+(* the program string reaches the backend untouched: the child's argv and the file to execute
+   are functions of the builder's program, arguments and cwd only *)
+Lemma spec_exec_view c b s :
+  validate c b = Ok s ->
+  spec_argv s = c_program b :: c_args b /\ spec_lookup s = lookup_of (c_program b) (c_cwd b).
+Proof.
+  intros H. apply validate_ok_spec in H. subst s. unfold spec_argv, spec_lookup, spec_of.
+  cbn [s_program s_args s_cwd]. split; reflexivity.
+Qed.
+
+Lemma view_exec_view p cs :
+  c_program (view (command_new p) cs) = p /\
+  c_args (view (command_new p) cs) = arg_texts cs /\
+  c_cwd (view (command_new p) cs) = last_some cwd_of_call cs None.
+Proof. unfold view, command_new. cbn [c_program c_args c_cwd app]. repeat split. Qed.
